@@ -39,6 +39,58 @@ fn warm_up() {
     }
 }
 
+/// Building the C20 document pool runs cedar code on the harness's own seed documents (to derive
+/// protobuf encodings and bundles). A stack overflow or abort in there would take the harness
+/// down before it could report anything. So a child builds the pool first, noting the seed it is
+/// working on; if the child dies or stalls, that seed is left underived (VERIF_POOL_SKIP) and the
+/// ordinary cases over the seed, which run crash-isolated, report the violation.
+fn preflight() -> Vec<String> {
+    let exe = std::env::current_exe().unwrap_or_else(|_| "cedar-sim".into());
+    let dir = std::env::var("VERIF_OUT_DIR").unwrap_or_else(|_| format!("{}/work", verif_dir()));
+    let _ = std::fs::create_dir_all(&dir);
+    let pf = format!("{dir}/preflight-{}.progress", std::process::id());
+    let mut skip: Vec<String> = vec![];
+    for _ in 0..12 {
+        let _ = std::fs::write(&pf, "");
+        let child = std::process::Command::new(&exe)
+            .arg("preflight")
+            .env("VERIF_POOL_SKIP", skip.join(","))
+            .env("VERIF_POOL_PROGRESS", &pf)
+            .stdout(std::process::Stdio::null())
+            .stderr(std::process::Stdio::null())
+            .spawn();
+        let Ok(mut child) = child else { harness_error("cannot start the preflight child") };
+        let t0 = std::time::Instant::now();
+        let status = loop {
+            match child.try_wait() {
+                Ok(Some(st)) => break Some(st),
+                Ok(None) => {
+                    if t0.elapsed().as_secs() > 120 {
+                        let _ = child.kill();
+                        let _ = child.wait();
+                        break None;
+                    }
+                    std::thread::sleep(std::time::Duration::from_millis(20));
+                }
+                Err(_) => harness_error("cannot wait for the preflight child"),
+            }
+        };
+        if status.map(|s| s.success()).unwrap_or(false) {
+            let _ = std::fs::remove_file(&pf);
+            return skip;
+        }
+        let at = std::fs::read_to_string(&pf).unwrap_or_default();
+        if at.is_empty() || skip.contains(&at) {
+            let _ = std::fs::remove_file(&pf);
+            harness_error(&format!("the preflight child ended with {status:?} outside the derivation of a seed document (at {at:?}): cedar code crashes on the harness's own fixed set-up"));
+        }
+        println!("preflight: cedar code {} while the harness derived documents from seed {at}; the seed stays underived and the cases over it report the crash", if status.is_some() { "crashed the process" } else { "did not come back within 120 s" });
+        skip.push(at);
+    }
+    let _ = std::fs::remove_file(&pf);
+    harness_error("more than 12 seed documents crash cedar code during set-up");
+}
+
 fn run_world<W: World>(world: W, tier: Tier) -> i32 {
     let world = Arc::new(world);
     let seed = verif_seed();
@@ -311,6 +363,17 @@ fn main() {
     }
     if args.len() < 2 {
         harness_error("usage: cedar-sim run <world|ID> <quick|thorough> | replay <file> | digest <world> <n> <workers>");
+    }
+    if args[1] == "preflight" {
+        // child of `preflight()`: build every lazy, then leave; the parent looks at how we ended
+        hashseam::set_thread_hash_seed(0x00C0_FFEE);
+        worlds::storagefaults::warm_up();
+        std::process::exit(0);
+    }
+    if matches!(args[1].as_str(), "run" | "replay" | "digest") && std::env::var("VERIF_POOL_SKIP").is_err() {
+        let skip = preflight();
+        // before any thread exists; inherited by every worker and case child
+        std::env::set_var("VERIF_POOL_SKIP", skip.join(","));
     }
     // cedar code runs on the main thread while warming up; if it does not come back, say so
     // instead of hanging (exit 2: nothing was decided)
